@@ -182,7 +182,20 @@ class Runner:
             w.tick(1)
         elif a == "submit":
             app = w.apps[act["app"]]
-            req = act["_req"]
+            req = act.get("_req")
+            if req is None:     # replay: find the held request by its identifiers
+                for i, (nm, rq) in enumerate(self.held):
+                    if nm == act["app"] and rq.header.hop_by_hop_identifier == act["m"]["hbh"] and rq.header.end_to_end_identifier == act["m"]["e2e"]:
+                        req = rq
+                        del self.held[i]
+                        break
+                else:
+                    for rq in app.inbox:
+                        if rq.header.hop_by_hop_identifier == act["m"]["hbh"] and rq.header.end_to_end_identifier == act["m"]["e2e"]:
+                            req = rq
+                            break
+            if req is None:
+                raise KeyError("no delivered request matches submit %r" % (act["m"],))
             ans = app.generate_answer(req, result_code=2001)
             app.submit(ans)
             w.run()
@@ -294,17 +307,21 @@ class Gen:
                 if getattr(vc, "cer_sent", False) and not self.focus.get("multi_cer"):
                     return M("DW", True, hbh, e2e, oh=rng.choice(known))
                 vc.cer_sent = True
+                vc.ce_done = True
                 return M("CE", True, hbh, e2e, oh=rng.choice(cand) if rng.random() < 0.9 else rng.choice(known),
                          auth=[4, 3] if good else rng.choice([[], [77]]), acct=[3] if good else [], relay=rng.random() < 0.05)
             kind = "cea"
         # each connection carries at most one CER (RFC 6733 5.3); after a successful exchange no further CE
         # messages are sent unless the profile asks for them (C06 leaves that behaviour unspecified)
-        if kind in ("cer", "cea") and not self.focus.get("ce_after_success") and st not in ("CONNECTED", ""):
+        if kind in ("cer", "cea") and not self.focus.get("ce_after_success") and (st not in ("CONNECTED", "") or getattr(vc, "ce_done", False)):
             kind = rng.choice(["dwr", "req", "dwa"])
+        if kind == "cea" and vc.dir == "in" and getattr(vc, "cer_sent", False):
+            kind = "dwa"
         if kind == "cer" and (getattr(vc, "cer_sent", False) or vc.dir == "out") and not self.focus.get("multi_cer"):
             kind = rng.choice(["dwr", "req"])
         if kind == "cer":
             vc.cer_sent = True
+            vc.ce_done = True
             auth = rng.choice([[4], [4], [3], [4, 3], [], [77]])
             return M("CE", True, hbh, e2e, oh=claimed if rng.random() < 0.95 else "", auth=auth, acct=rng.choice([[], [], [3]]),
                      relay=rng.random() < 0.1)
@@ -313,6 +330,8 @@ class Gen:
             pend = [m for m in vc.tx if m["cmd"] == "CE" and m["req"]]
             if pend and rng.random() < 0.85:
                 hbh, e2e = pend[-1]["hbh"], pend[-1]["e2e"]
+            if vc.dir == "out":
+                vc.ce_done = True
             return M("CE", False, hbh, e2e, oh=claimed if rng.random() < 0.9 else "", rc=rng.choice([2001, 2001, 2001, 3010, 5010]),
                      auth=[4, 3])
         if kind in ("dwr", "dpr"):
@@ -357,6 +376,8 @@ class Gen:
             choices.append(("submit", 4))
         if any(p["persistent"] for p in self.r.full_cfg["peers"]):
             choices.append(("plan", 1))
+        aw = self.focus.get("act", {})
+        choices = [(nm, aw.get(nm, wt)) for nm, wt in choices if aw.get(nm, wt) > 0]
         names, weights = zip(*choices)
         a = rng.choices(names, weights=weights)[0]
         if a == "tick" or a == "connect":
@@ -448,3 +469,15 @@ def mon_batch(params, traces, tag, timeout=1800):
     if not os.path.exists(outp):
         raise tlc.TlcError("MonEval produced no output:\n" + r["out"][-4000:])
     return json.load(open(outp))
+
+
+def replay_acts(cfg, acts, seed=0, max_conn=9, pinned=()):
+    """Execute a given action sequence (from a TLC behaviour or a stored replay) on the real node."""
+    r = Runner(cfg, seed=seed)
+    try:
+        for a in acts:
+            r.do(dict(a))
+        params = model_params(r.full_cfg, max_conn=max_conn, pinned=pinned)
+        return {"params": params, "steps": r.steps, "exits": [(n, e) for n, e, _ in r.w.s.exits], "cfg": cfg}
+    finally:
+        r.close()
